@@ -45,7 +45,7 @@ FIXED = {"sp": " ", "tb": "\t", "cr": "\r", "pc": "%", "hs": "#", "dl": "$", "lb
          "gt": ">", "sl": "/", "bs": "\\", "pp": "|", "ex": "!", "dq": '"', "sq": "'", "lp": "(", "rp": ")",
          "TX": "text", "DC": "doc", "DF": "def", "BK": "block",
          "ls": "[", "rs": "]", "cm": ",", "cl": ":", "Fh": "h", "Ft": "trim", "Fg": "g",
-         "BLK": "<%block>", "IFT": "if True:", "IFF": "if False:", "FOR": "for _i in (1, 2):",
+         "IN": "include", "BLK": "<%block>", "IFT": "if True:", "IFF": "if False:", "FOR": "for _i in (1, 2):",
          "EIF": "endif", "EFR": "endfor"}
 W_POOL = ["a", "b7", "kk", "zq", "Yy_1"]
 U_POOL = ["é", "ü", "漢", "Ω", "ж", "\U00010400"]      # the last one: a non-BMP letter
@@ -54,9 +54,29 @@ U_POOL = ["é", "ü", "漢", "Ω", "ж", "\U00010400"]      # the last one: a no
 #   o: ZWNBSP/BOM, ZWSP, NUL, a combining mark, a non-BMP symbol (+ two ordinary ones)
 #   v: LS, PS, NEL, VT, FF, NBSP -- white space for \s / str.strip, not for `[ \t]`, not line ends for `^`
 O_CLASSES = ["\ufeff", "\u200b", "\x00", "\u0301", "\U0001F600", "~", "\u20ac"]
+O_NAMES = ["zwnbsp", "zwsp", "nul", "combining", "nonbmp", "tilde", "euro"]
 V_CLASSES = ["\u2028", "\u2029", "\x85", "\x0b", "\x0c", "\xa0"]
+# ... and, as the Python text of a directive (or as literal text, where it must be reproduced verbatim): fillers that the Python
+# compiler rejects for DIFFERENT reasons, or accepts only just.  All are parenthesised (no word character at either end), hold no
+# quote, brace, |, #, <, %, $, backslash or newline, and are bracket-balanced: for the lexer they are one opaque filler.
+PY_FILLERS = [
+    ("py-grammar", "(x+)"),                                   # SyntaxError
+    ("py-surrogate", "(\ud800)"),                              # a lone surrogate: UnicodeEncodeError in the compiler
+    ("py-nonutf8", "(x\udcff)"),                               # the same, low half (what surrogateescape produces)
+    ("py-nul", "(x\x00)"),                                     # ValueError / SyntaxError: null byte
+    ("py-formfeed", "(\x0cx)"),                                # accepted: form feed is white space in Python
+    ("py-control", "(x\x01)"),                                 # invalid non-printable character
+    ("py-deep60", "(" * 60 + "x" + ")" * 60),                   # accepted
+    ("py-deep200", "(" * 200 + "x" + ")" * 200),                # at the compiler's nesting limit
+    ("py-chain200", "(" + "+".join(["x"] * 200) + ")"),         # accepted
+    ("py-chain600", "(" + "+".join(["x"] * 600) + ")"),         # accepted by the compiler, deep for any recursive visitor
+    ("py-chain5000", "(" + "+".join(["x"] * 5000) + ")"),       # RecursionError in the compiler
+    ("py-hugeint", "(" + "9" * 6000 + ")"),                     # exceeds the int literal limit
+]
+O_NAMES = O_NAMES + [n for n, _ in PY_FILLERS]
+O_CLASSES = O_CLASSES + [t for _, t in PY_FILLERS]
 O_POOL, V_POOL = O_CLASSES, V_CLASSES
-CTL = {"IFT": ("if", False), "IFF": ("if", False), "FOR": ("for", False), "EIF": ("if", True), "EFR": ("for", True)}
+CTL = {"IFO": ("if", False), "IFT": ("if", False), "IFF": ("if", False), "FOR": ("for", False), "EIF": ("if", True), "EFR": ("for", True)}
 
 EXTRA_STRINGS = [
     "w lt pc TX gt lt sl pc TX gt w",            # empty <%text></%text>
@@ -79,6 +99,15 @@ EXTRA_STRINGS = [
     "lt pc DC gt lt sl pc DC sp gt w lt sl pc w gt lt sl pc DC gt w",
     "hs hs w bs nl w nl w",
     "tb tb pc pc w nl sp tb pc pc pc nl tb pc pc",
+    # Python text in every directive kind: ${ }, its filter list, <% %>, <%! %>, a % control line, ${} in a tag attribute --
+    # and the same filler as literal text, in <%text>, <%doc>, a ## comment (run with EVERY class behind o)
+    "w dl lb o rb w",
+    "w dl lb w pp o rb w",
+    "w lt pc sp o sp pc gt w",
+    "w lt pc ex sp o sp pc gt w",
+    "pc sp IFO nl w nl pc sp EIF nl",
+    "w INC w",
+    "o w nl sp o lt pc TX gt o lt sl pc TX gt lt pc DC gt o lt sl pc DC gt nl hs hs o nl o",
     # suspicious characters (run with EVERY class behind o / v): first / last character, after a newline, before a directive
     "o w nl o dl lb w rb o",
     "v w nl v dl lb w rb v",
@@ -104,6 +133,8 @@ def conc_map(rng, syms, oc=None, vc=None):
             crlf = False            # `cr nl` IS a CRLF for the spec; keep it one
     m["nl"] = "\r\n" if crlf else "\n"
     m["MAGIC"] = "## -*- coding: utf-8 -*-" + m["nl"]
+    m["IFO"] = "if " + m["o"] + ":"
+    m["INC"] = '<%include file="${' + m["o"] + '}"/>'
     m["DEF"] = '<%%def name="%s()">' % rng.choice(["f1", "gq"])
     m["DE2"] = '<%def name="h2(x=1)">'
     return m
@@ -228,6 +259,10 @@ def apply_ops_syms(ops, syms):
 
 def in_form(text, form):
     """(source object handed to Mako, input_encoding)"""
+    try:
+        text.encode("utf-8")
+    except UnicodeEncodeError:
+        return text, None     # a lone surrogate: such a source exists as str only
     if form == 1 and text.startswith("\ufeff"):
         form = 2          # in BYTES a leading EF BB BF is an encoding signature, not a character: such a source carries its own
     if form == 1:
@@ -277,12 +312,17 @@ def run_render(text, ctx, pre=None, form=0, entry=0):
         elif entry in (2, 3):
             tmp = tempfile.mkdtemp(prefix="mv-c01-", dir="/dev/shm" if os.path.isdir("/dev/shm") else None)
             fn = os.path.join(tmp, "t.html")
+            data = given if isinstance(given, bytes) else in_form(given, 1)[0]      # a file holds bytes
+            if not isinstance(data, bytes):
+                entry = 0              # not encodable: no file can hold it
             with open(fn, "wb") as f:
-                f.write(given if isinstance(given, bytes) else in_form(given, 1)[0])      # a file holds bytes
+                f.write(data if isinstance(data, bytes) else b"")
             if entry == 2:
                 t = Template(filename=fn, preprocessor=pre, input_encoding=enc)
-            else:
+            elif entry == 3:
                 t = TemplateLookup(directories=[tmp], preprocessor=pre, input_encoding=enc).get_template("t.html")
+            else:
+                t = Template(given, preprocessor=pre, input_encoding=enc)
         else:
             t = Template(given, preprocessor=pre, input_encoding=enc)
         return ("ok", t.render_unicode(**ctx))
@@ -339,11 +379,17 @@ def concretise_alt(alt, m, syms, text, off):
         elif k == "ctl":
             kw, isend = CTL[n["b"][0]]
             nodes.append(["ctl", l, c, kw, isend, m[n["b"][0]]])
+            if n["b"][0] == "IFO":
+                j = "valid" if py_ok("if " + m["o"] + ":\n pass") else "invalid"
+                b = m["IFO"]
         elif k == "texttag":
             bpos = [n["bl"], col_of(text, off[n["bp"] - 1])] if n["b"] else None
             nodes.append(["texttag", l, c, b, bpos])
         elif k == "tag":
             nodes.append(["tag", l, c, m[n["b"][0]]])
+            if n["b"][0] == "IN":
+                j = "valid" if py_ok(m["o"]) else "invalid"
+                b = m["INC"]
         elif k == "endtag":
             nodes.append(["endtag", cat(m, n["b"])])
         judges.append((j, b.count("\n")))
@@ -437,6 +483,7 @@ def make_ctx():
     ctx = {}
     for i, nm in enumerate(W_POOL + U_POOL + ["text", "doc", "def", "block"]):
         ctx[nm] = 2 + i
+    ctx["x"] = 1              # the name used by the Python-text fillers
     return ctx
 
 
@@ -526,6 +573,10 @@ def check_string(job):
     src = route["src"]
     m = conc_map(rng, list(src) + ["sp"] + list(syms), oc, vc)
     given = cat(m, src)
+    # which Python-text filler (if any) stands behind o in this string: part of the signature of a RAW exception
+    pycls = None
+    if m["o"] in O_CLASSES[7:] and ({"o", "IFO", "INC"} & (set(src) | set(syms))):
+        pycls = O_NAMES[O_CLASSES.index(m["o"])]
     pre = preprocessors(route["ops"], m, src, bare=bool(seed % 2))
     form, entry = route["form"], route["entry"]
     text = cat(m, syms)
@@ -550,6 +601,8 @@ def check_string(job):
         if real[0] == "ok":
             robs = run_render(given, make_ctx(), pre, form, entry)
         sig = classify(alts, calts, real, robs)
+        if real[0] == "exc" and pycls:
+            sig = "lexer:python-text[%s]:raises-%s" % (pycls, real[1])
         return {"sig": sig, "text": text, "syms": syms, "expected": calts, "observed": real, "render": robs,
                 "stage": "lexer", "route": how}, rendered
     if do_render and real[0] == "ok":
@@ -563,6 +616,8 @@ def check_string(job):
             if not good:
                 feats = [f for f in SPECIAL if f in hit[0]["ft"]]
                 site = feats[0] if feats else "render"
+                if pycls and robs[0] == "exc":
+                    site = "python-text[%s]" % pycls
                 if robs[0] == "ok" and exp[0] == "ok":
                     mode = "text-dropped" if one_char_dropped(robs[1], exp[1]) else "output-differs"
                 else:
@@ -639,7 +694,7 @@ def replay(run, label, by, procs, render_every=1, all_classes=False):
                 lead[key[0]] += 1          # ... and in strict rotation on the longer ones
                 c = (lead[key[0]] + run.seed) % n
                 classes = [(c, classes[0][1]) if key[0] == "o" else (classes[0][0], c)]
-        if all_classes and ("o" in key or "v" in key):
+        if all_classes and ({"o", "v", "IFO", "INC"} & set(key)):
             classes = [(c, c) for c in range(max(len(O_CLASSES), len(V_CLASSES)))]
         for oc, vc in classes:
             jobs.append((list(key), by[key], h, rend, oc % len(O_CLASSES), vc % len(V_CLASSES)))
@@ -1170,7 +1225,7 @@ def check(run):
     # coverage (vacuity) on the small instance k = 3 + the hand-picked strings: every matcher must fire
     res3, by3 = enumerate_strings(run, "mc-k3-coverage", QUICK_SYMS, 3, extra=extra, workers=workers, coverage=True)
     run.extra["action_coverage"] = {a: res3.coverage.get(a, [0, 0])[1] for a in MATCHERS}
-    n, rn, bad = replay(run, "k3", {k: v for k, v in by3.items() if len(k) > 4}, 1, all_classes=True)
+    n, rn, bad = replay(run, "k3", {k: v for k, v in by3.items() if list(k) in extra}, 1, all_classes=True)
     stats["hand-picked strings"] = {"strings": n, "rendered": rn, "disagreements": bad}
     res, by = enumerate_strings(run, "mc-k4", QUICK_SYMS, 4, workers=workers)
     kinds = set(nd["k"] for alts in by.values() for a in alts for nd in a["n"]) | set(a["e"]["why"] for alts in by.values() for a in alts)
